@@ -393,6 +393,76 @@ fn menu_universe(sink: &Sink) -> Tally {
     t
 }
 
+/// Records written for raw states (castling-geometry universe and one-edit neighbours of accepted
+/// boards): clause (ii) — a well-formed castling / en-passant / clock field that the position or the
+/// range does not support must be reported as that field. The expectation is asserted when the
+/// reference model finds exactly that one aspect wrong and the library accepts the record with the
+/// aspect neutralised ("otherwise valid").
+fn raw_record_universe(us: &[Box<dyn crate::universes::RawUniverse>], sink: &Sink) -> Tally {
+    let mut total = Tally::default();
+    for u in us {
+        let t: Tally = (0..u.parts())
+            .into_par_iter()
+            .fold(Tally::default, |mut t, i| {
+                u.part(i, &mut |raw: Pos| {
+                    if !refmodel::text::expressible(&raw) {
+                        return;
+                    }
+                    t.states += 1;
+                    t.evals += 1;
+                    let mut bare = raw.clone();
+                    bare.rights = [[None; 2]; 2];
+                    bare.ep = None;
+                    bare.hm = 0;
+                    bare.fm = 1;
+                    let mut expect: Option<FenFault> = None;
+                    if bare.sound().is_ok() {
+                        let with = |f: &dyn Fn(&mut Pos)| -> bool {
+                            let mut x = bare.clone();
+                            f(&mut x);
+                            x.sound().is_err()
+                        };
+                        let wrong = [
+                            (FenFault::Castling, raw.rights.iter().flatten().any(|r| r.is_some()) && with(&|x| x.rights = raw.rights)),
+                            (FenFault::EnPassant, raw.ep.is_some() && with(&|x| x.ep = raw.ep)),
+                            (FenFault::HalfMove, raw.hm > 100),
+                            (FenFault::FullMove, raw.fm == 0),
+                        ];
+                        if wrong.iter().filter(|w| w.1).count() == 1 {
+                            let f = wrong.iter().find(|w| w.1).unwrap().0;
+                            let mut fixed = raw.clone();
+                            match f {
+                                FenFault::Castling => fixed.rights = [[None; 2]; 2],
+                                FenFault::EnPassant => fixed.ep = None,
+                                FenFault::HalfMove => fixed.hm = 0,
+                                _ => fixed.fm = 1,
+                            }
+                            if matches!(Entry::Shredder.call(&to_fen(&fixed, true)), Ok(Ok(_))) {
+                                expect = Some(f);
+                            }
+                        }
+                    }
+                    if expect.is_some() {
+                        t.nontrivial += 1;
+                    }
+                    let rec = to_fen(&raw, true);
+                    check_text(&rec, Entry::Shredder, expect, sink, &mut t);
+                    check_text(&rec, Entry::Parse, expect, sink, &mut t);
+                    if raw.rights.iter().flatten().all(|r| matches!(r, None | Some(0) | Some(7))) && raw.rights[0][0] != Some(0) && raw.rights[1][0] != Some(0) && raw.rights[0][1] != Some(7) && raw.rights[1][1] != Some(7) {
+                        // the same in plain notation (K/Q/k/q denote the h/a files)
+                        let rec = to_fen(&raw, false);
+                        check_text(&rec, Entry::Standard, expect, sink, &mut t);
+                        check_text(&rec, Entry::Parse, expect, sink, &mut t);
+                    }
+                });
+                t
+            })
+            .reduce(Tally::default, Tally::merge);
+        total.absorb(t);
+    }
+    total
+}
+
 fn short_universe(sink: &Sink) -> Tally {
     let alpha40 = crate::props::pure::ALPHA40;
     alpha40
@@ -441,6 +511,14 @@ fn run_c08(run: &mut Run) {
     let t0 = Instant::now();
     let t = menu_universe(&run.sink);
     run.add("T-FENMENU", json!({"menu_sizes": menus().iter().map(|m| m.len()).collect::<Vec<_>>(), "product": "complete", "single_fault_bases": 4}), true, t0, t);
+    let t0 = Instant::now();
+    let raws: Vec<Box<dyn crate::universes::RawUniverse>> = vec![
+        Box::new(crate::universes::Castle { extra: if q { 0 } else { 1 } }),
+        Box::new(crate::universes::Edit { corpus: corpus.iter().take(if q { 40 } else { 400 }).cloned().collect(), two_edits_for_first: 0 }),
+        Box::new(crate::universes::EpUniverse::small()),
+    ];
+    let t = raw_record_universe(&raws, &run.sink);
+    run.add("T-FENRAW", json!({"records_of": "S-CASTLE (incl. king off the back rank, every subset of rights), one-edit neighbours of corpus boards (S-EDIT), S-EP(small)", "expectation": "field named when exactly one of castling / en passant / half-move / full-move is unsupported and the record is otherwise accepted"}), true, t0, t);
     let t0 = Instant::now();
     let t = short_universe(&run.sink);
     run.add("T-SHORT", json!({"alphabet": 40, "max_len": 3}), true, t0, t);
